@@ -35,8 +35,17 @@ CLAIMS = {
         text="ExtendedCopy/ExtendedCopyGraph of the real library over random DAGs with referrers, indexes and shared "
              "sub-graphs, every start node, depth 0..3, gated random schedules, faults; CopyMon.tla computes the "
              "upward closure and the depth-bounded ancestor graphs from the generator's edge list and judges the "
-             "destination's final content.",
-        note="Predecessor ground truth is the generator's edge list (never content.Successors).",
+             "destination's final content. A second plan (extf) adds artifact-type and annotation filters (exact, "
+             "partial, empty-type and key-only regexes over manifests with and without artifactType, indexes with "
+             "artifactType, annotated manifests) with depth limits from memory, OCI-layout and REMOTE sources: a real "
+             "remote.Repository over the in-process registry, with the Referrers API under a server page limit of "
+             "1-2 descriptors (the filters' ReferrerLister fast path) or with the referrers tag schema; CopyMon's "
+             "followed-predecessor relation PredF is the source's own relation (referrers only for a remote source) "
+             "restricted to the manifests that satisfy the filter as the property words it.",
+        note="Predecessor ground truth is the generator's edge list (never content.Successors); only the regular-expression "
+             "match itself is delegated to Go's regexp. Fixed in /repo: F10 (artifactType ignored on sources without "
+             "the Referrers API). Docker media types are left out of filter scenarios (the property does not say what "
+             "their artifact type is); file-store and reopened-OCI sources are not used as extended-copy sources yet.",
         ref="3 C03", technique=TECH + " (CopyMon.tla ExtAllAncestors / ExtDepthBound)"),
     "C04": dict(
         text="SemInv (permits = started regions <= Concurrency), OpsHoldPermit, OnlyOwnerWorks are invariants of "
